@@ -12,6 +12,7 @@ of sampled histories (labelled PARTIAL): the block-level operations are not mode
 import GoNfsd.Model.Fsck
 import GoNfsd.Lemmas.FsckMeta
 import GoNfsd.Lemmas.Names
+import GoNfsd.Lemmas.Refs
 
 namespace GoNfsd.Props.C04
 open GoNfsd.Model.Fsck GoNfsd.Gen.Consts GoNfsd.Gen.Super
@@ -289,5 +290,48 @@ theorem names_unique_in_every_reachable_state (u : Bool) (sz : Nat)
     (ops : List (GoNfsd.Model.Fs.Op × GoNfsd.Model.Fs.Choice)) (i : Nat) :
     (GoNfsd.Model.Fs.liveNames ((GoNfsd.Model.Fs.run (GoNfsd.Model.Fs.mkfs u sz) ops).1.get i).slots).Nodup :=
   GoNfsd.Model.Fs.run_NU _ ops (GoNfsd.Model.Fs.mkfs_NU u sz) i
+
+/-- The name space of EVERY reachable state of the reference file system is well-formed — after
+    any sequence of CREATE, MKDIR, SYMLINK, REMOVE, RMDIR, RENAME (within and across directories,
+    onto existing targets), SETATTR, WRITE and the read-only procedures, with any allocator and
+    slot choices:
+      * every directory starts with live "." and ".." entries; other objects have no entries;
+      * every name (an entry past the two dot entries) denotes an object in use;
+      * no object has two names (there are no hard links: LINK is refused);
+      * names within a directory are distinct.
+    (What is NOT claimed is that ".." names the parent: RENAME leaves it stale — the known
+    finding.  The proof of the RENAME case is what exposed that RENAME accepted ".." as a target
+    name, fixed in 7e58aef: with that name allowed the second clause is false.) -/
+theorem namespace_wellformed_in_every_reachable_state (u : Bool) (sz : Nat)
+    (ops : List (GoNfsd.Model.Fs.Op × GoNfsd.Model.Fs.Choice)) :
+    GoNfsd.Model.Fs.WFN (GoNfsd.Model.Fs.run (GoNfsd.Model.Fs.mkfs u sz) ops).1 :=
+  GoNfsd.Model.Fs.run_WFN _ ops (GoNfsd.Model.Fs.WFN_mkfs u sz)
+
+/-- every name denotes a live object, in every reachable state -/
+theorem every_name_denotes_a_live_object (u : Bool) (sz : Nat)
+    (ops : List (GoNfsd.Model.Fs.Op × GoNfsd.Model.Fs.Choice)) (d idx ino : Nat)
+    (h : GoNfsd.Model.Fs.Ref (GoNfsd.Model.Fs.run (GoNfsd.Model.Fs.mkfs u sz) ops).1 d idx ino) :
+    ((GoNfsd.Model.Fs.run (GoNfsd.Model.Fs.mkfs u sz) ops).1.get ino).kind ≠ 0 :=
+  (namespace_wellformed_in_every_reachable_state u sz ops).nd d idx ino h
+
+/-- no object is reachable under two names, in every reachable state -/
+theorem no_object_has_two_names (u : Bool) (sz : Nat)
+    (ops : List (GoNfsd.Model.Fs.Op × GoNfsd.Model.Fs.Choice)) (d1 i1 d2 i2 ino : Nat)
+    (h1 : GoNfsd.Model.Fs.Ref (GoNfsd.Model.Fs.run (GoNfsd.Model.Fs.mkfs u sz) ops).1 d1 i1 ino)
+    (h2 : GoNfsd.Model.Fs.Ref (GoNfsd.Model.Fs.run (GoNfsd.Model.Fs.mkfs u sz) ops).1 d2 i2 ino) :
+    d1 = d2 ∧ i1 = i2 :=
+  (namespace_wellformed_in_every_reachable_state u sz ops).ur d1 i1 d2 i2 ino h1 h2
+
+/-- Non-vacuity: a history with a cross-directory RENAME onto an existing target reaches a state
+    with names in two directories. -/
+example :
+    let s := (GoNfsd.Model.Fs.run (GoNfsd.Model.Fs.mkfs true 100000)
+      [(.mkdir (GoNfsd.Model.Fs.mkFh 1 1) [97], { inum := 2, slot := 2 }),
+       (.create (GoNfsd.Model.Fs.mkFh 2 1) [102] 0, { inum := 3, slot := 2 }),
+       (.create (GoNfsd.Model.Fs.mkFh 1 1) [103] 0, { inum := 4, slot := 3 }),
+       (.rename (GoNfsd.Model.Fs.mkFh 2 1) [102] (GoNfsd.Model.Fs.mkFh 1 1) [103], { slot := 3 })]).1
+    ((s.get 1).slots.map (·.inum), (s.get 2).slots.map (·.inum), (s.get 4).kind, (s.get 3).kind)
+      = ([1, 1, 2, 3], [2, 1, 0], 0, 1) := by
+  decide
 
 end GoNfsd.Props.C04
